@@ -220,9 +220,12 @@ fn on_step<K: Kit>(tier: &str, idx: usize, st: &mut PrmStep<K>, rep: &mut Report
         if !K::same(&pre[i].0, &post[i].0) {
             fail!("milestone-mutated", format!("milestone {i} changed state"), "construct");
         }
-        // old adjacency is a prefix; only the new index may be appended
+        // old links are kept and only the new index may be added (as sets: the order in which an
+        // implementation stores the neighbours is its own business)
         let (a, b) = (&pre[i].1, &post[i].1);
-        if b.len() < a.len() || b[..a.len()] != a[..] || b[a.len()..].iter().any(|&x| x != pre.len()) || b.len() > a.len() + 1 {
+        let kept = a.iter().all(|x| b.contains(x));
+        let added: Vec<&usize> = b.iter().filter(|x| !a.contains(x)).collect();
+        if !kept || added.iter().any(|&&x| x != pre.len()) || added.len() > 1 {
             fail!("old-adjacency-rewritten", format!("adjacency of milestone {i} changed from {a:?} to {b:?}"), "construct");
         }
     }
